@@ -143,6 +143,14 @@ def child_history(workdir, spec):
                 n = Network(filelist=p, fileformats="kida", elements=["H", "C", "CH"], pseudo_elements=["X"],
                             species_kwargs={"grain_symbol": "DUST", "surface_prefix": "G", "bulk_prefix": "B"})
                 quiet(n.to_code, path=d)
+            elif pre == "standard-case-elements":
+                # another network with the same elements written in standard case (He, Mg), rendered first
+                from .native_net import AR, enc_kida
+                p = os.path.join(d, "o.kida")
+                rs = [(["He+", "H"], ["He", "H+"]), (["Mg", "H+"], ["Mg+", "H"]), (["He+", "Mg"], ["He", "Mg+"])]
+                open(p, "w").write("\n".join(enc_kida(AR(r, q, 1.0e-9, 0.0, 0.0, 10, 1000, k + 1, 3)) for k, (r, q) in enumerate(rs)) + "\n")
+                n = Network(filelist=p, fileformats="kida", elements=["H", "He", "Mg", "e"], pseudo_elements=[])
+                quiet(n.to_code, path=d)
             elif pre == "krome-directives":
                 p = os.path.join(d, "o.krome")
                 open(p, "w").write("\n".join(KROME_A) + "\n")
@@ -412,19 +420,31 @@ C17_SPECS["krome-commons"] = dict(files={"net.krome": ["@format:idx,R,R,P,Tmin,T
 C17_SPECS["uclchem-own-binding"] = dict(files={"net.ucl": [l.replace("HCL", "HCl").replace(",CL,", ",Cl,") for l in UCL_LINES]}, formats=["uclchem"],
                                         elements=["H", "C", "O", "Cl", "E"], pseudo=["CRP", "PHOTON"], grain_model="rr07x", solver=("cvode", "cpu", "dense"),
                                         binding={"#CO": 1300.0, "#HCl": 5174.0}, only_preludes=("binding-energies",))
+def _upper_lines():
+    from .native_net import AR, enc_kida
+    rs = [(["HE+", "H"], ["HE", "H+"]), (["MG", "H+"], ["MG+", "H"]), (["HE+", "MG"], ["HE", "MG+"]), (["H+", "E"], ["H"])]
+    return [enc_kida(AR(r, q, 1.0e-9 * (k + 1), 0.0, 0.0, 10, 1000, k + 1, 3)) for k, (r, q) in enumerate(rs)]
+
+
+# element symbols written in capitals (HE, MG): the identifiers generated for them do not depend on whether a network with the
+# standard spelling of the same elements was rendered earlier in the process
+C17_SPECS["kida-uppercase"] = dict(files={"net.kida": _upper_lines()}, formats=["kida"], elements=["H", "HE", "MG", "E"], pseudo=[], solver=("cvode", "cpu", "dense"),
+                                   only_preludes=("standard-case-elements",))
 C17_SPECS["uclchem"]["files"] = {"net.ucl": [l.replace("HCL", "HCl").replace(",CL,", ",Cl,") for l in UCL_LINES]}
 
 
 def oracle_c17(tier, seed):
     viol, cases = [], 0
     seeds = ["0", "1", "7"] if tier == "quick" else ["0", "1", "2", "3", "7", "11", "42", "1234"]
-    preludes = [[], ["custom-elements"], ["krome-directives"], ["binding-energies"], ["failed-krome", "krome-directives"], ["failed-krome"], ["edit-after-render"], ["patch-first"], ["edit-after-render-same-loader"], ["interleaved-load"]]
+    preludes = [[], ["custom-elements"], ["krome-directives"], ["binding-energies"], ["failed-krome", "krome-directives"], ["failed-krome"], ["edit-after-render"], ["patch-first"], ["edit-after-render-same-loader"], ["interleaved-load"], ["standard-case-elements"]]
     for label, base in C17_SPECS.items():
         ref = None
         for hs in seeds:
             for pre in (preludes if hs == seeds[0] else [[]]):
                 if base.get("only_preludes") is not None and pre and not all(x in base["only_preludes"] for x in pre):
                     continue
+                if any(x == "standard-case-elements" and x not in (base.get("only_preludes") or ()) for x in pre):
+                    continue      # opt-in prelude (only meaningful for the network that spells the same elements in capitals)
                 if any(x in base.get("skip_preludes", ()) for x in pre):
                     continue      # (the leak of another network's element tables is a recorded finding on the kida / krome cases)
                 spec = dict(base, prelude=pre, repeat=2 if not pre else 1)
